@@ -9,6 +9,7 @@ observe(case) -> trace record for Trace_C16.tla:
             (ndarray.__setitem__, below unyt) with -(100*w + p); fin = values of every object afterwards
 Python only turns the case into calls and projects; all comparisons are TLC's (Trace_C16)."""
 
+import copy as _pycopy
 import zlib
 
 _U = {}
@@ -270,7 +271,16 @@ def apply(x, op):
     if o == "to_value_u":
         return x.to_value(s)
     if o == "copy":
-        return x.copy()
+        # call forms: copy(), copy(order=s), copy(s)
+        if s == "":
+            return x.copy()
+        return x.copy(s) if a else x.copy(order=s)
+    if o == "py_copy":
+        return _pycopy.copy(x)
+    if o == "py_deepcopy":
+        return _pycopy.deepcopy(x)
+    if o == "np_copy":
+        return np.copy(x, subok=True)
     if o == "ctor_a_from":
         return ua(x)
     if o == "in_units":
